@@ -199,6 +199,7 @@ type Effects struct {
 	retAct   map[string]bool
 	globals  map[*ssa.Global]*AbsVal
 	unres    map[ssa.Instruction]bool // call sites resolved only through VTA fallback
+	useCHA   bool
 	evalMemo map[evalKey]AbsVal
 	evalBusy map[evalKey]bool
 	evalCuts int
@@ -707,7 +708,6 @@ func (e *Effects) retVal(cal *Env, idx int, d int) AbsVal {
 
 // calleesOf resolves a call site to callee environments.
 func (e *Effects) calleesOf(site ssa.CallInstruction, env *Env, d int) []*Env {
-	p := e.p
 	c := site.Common()
 	var out []*Env
 	mk := func(fn *ssa.Function, fenv *Env, mc *ssa.MakeClosure, args []AbsVal) *Env {
@@ -734,7 +734,7 @@ func (e *Effects) calleesOf(site ssa.CallInstruction, env *Env, d int) []*Env {
 	}
 	if c.IsInvoke() {
 		args = evalArgs(true)
-		for _, fn := range p.Callees(site) {
+		for _, fn := range e.resolve(site) {
 			out = append(out, mk(fn, nil, nil, args))
 		}
 		return out
@@ -760,8 +760,28 @@ func (e *Effects) calleesOf(site ssa.CallInstruction, env *Env, d int) []*Env {
 		return out
 	}
 	e.unres[site] = true
-	for _, fn := range p.Callees(site) {
+	for _, fn := range e.resolve(site) {
 		out = append(out, mk(fn, nil, nil, args))
+	}
+	return out
+}
+
+// resolve: callees of a dynamic site from the VTA graph, or from CHA for the thorough cross-check.
+func (e *Effects) resolve(site ssa.CallInstruction) []*ssa.Function {
+	if !e.useCHA {
+		return e.p.Callees(site)
+	}
+	n := e.p.CHA.Nodes[site.Parent()]
+	if n == nil {
+		return nil
+	}
+	var out []*ssa.Function
+	seen := map[*ssa.Function]bool{}
+	for _, ed := range n.Out {
+		if ed.Site == site && !seen[ed.Callee.Func] {
+			seen[ed.Callee.Func] = true
+			out = append(out, ed.Callee.Func)
+		}
 	}
 	return out
 }
